@@ -434,7 +434,7 @@ def _jobs_for(prop, tier):
         return [j for j in jobs_option_below(tier) if j[1][3] == 'combinations'] + jobs_combinations(tier) + jobs_axis0(tier, 'combinations')
     if prop == 'C03':
         return jobs_c03(tier) + jobs_option_reduce(tier) + jobs_axis(tier, ('reduce',))
-    return {'C02': jobs_c02, 'C03': jobs_c03, 'C04': jobs_c04, 'C06': (lambda t: jobs_c06(t) + jobs_axis(t, ('sort', 'argsort')) + jobs_numpy_sort(t)), 'C08': (lambda t: jobs_c08(t) + jobs_numpy(t) + jobs_union(t) + jobs_reverse_merge(t) + jobs_record_merge(t) + jobs_list_merge(t) + [j for j in jobs_record_named(t) if j[0] is h_record_mergemany_named] + jobs_merge_union(t)), 'C17': jobs_c17, 'C12': jobs_numpy, 'C10': (lambda t: jobs_c10(t) + [j for j in jobs_record_named(t) if j[0] is h_record_field_key] + jobs_project(t) + [j for j in jobs_option_below(t) if j[1][3] == 'getitem_field'] + jobs_record_setitem(t)), 'C05': jobs_c05, 'C09': jobs_c09}.get(prop, lambda t: [])(tier)
+    return {'C02': jobs_c02, 'C03': jobs_c03, 'C04': jobs_c04, 'C06': (lambda t: jobs_c06(t) + jobs_axis(t, ('sort', 'argsort')) + jobs_numpy_sort(t)), 'C08': (lambda t: jobs_c08(t) + jobs_numpy(t) + jobs_union(t) + jobs_reverse_merge(t) + jobs_record_merge(t) + jobs_list_merge(t) + [j for j in jobs_record_named(t) if j[0] is h_record_mergemany_named] + jobs_merge_union(t) + jobs_union_ops(t)), 'C17': jobs_c17, 'C12': jobs_numpy, 'C10': (lambda t: jobs_c10(t) + [j for j in jobs_record_named(t) if j[0] is h_record_field_key] + jobs_project(t) + [j for j in jobs_option_below(t) if j[1][3] == 'getitem_field'] + jobs_record_setitem(t)), 'C05': jobs_c05, 'C09': jobs_c09}.get(prop, lambda t: [])(tier)
 
 
 # ------------------------------------------------------------------------------------------------ C01: getitem_next of list nodes
@@ -4208,3 +4208,87 @@ def jobs_axis0(tier, what):
         return [(h_axis0, (L, 'localindex'), 900) for L in ((0, 3) if tier == 'quick' else (0, 1, 2, 3, 5))]
     Ls = (0, 3) if tier == 'quick' else (0, 1, 2, 3, 4)
     return [(h_axis0, (L, 'combinations', n, rep), 900) for L in Ls for n in ((2,) if tier == 'quick' else (1, 2, 3)) for rep in (False, True)]
+
+
+# ------------------------------------------------------------------------------------------------ C01 / C08: positional operations on a union
+@guard
+def h_union_ops(tags, op, arg, width='64'):
+    """UnionArray8_<width>: entry i is element index[i] of content tags[i].  carry(c) lists entries c[0], c[1], ...; a range lists entries a..b-1;
+    project(k) lists, in order, the elements of content k that the union shows"""
+    tags = tuple(tags)
+    n = len(tags)
+    nc = NodeCtx(['UNI', 'IA', 'IDX', 'CNT', 'UTL', 'KD', 'IDS', 'EA'], [], unwind=max(14, 3 * n + (arg if isinstance(arg, int) else 4) * 2 + 12))
+    BASE = 1 << 32
+    kk = z3.BitVec('k!', 64)
+    lb = nc.m.bv('lencontentB')
+    nc.m.assume(nc.lencontent >= 1, nc.lencontent <= 2 ** 20, lb >= 1, lb <= 2 ** 20)
+    pb = nc.new_content_in(nc.m.mem, 'content_B', lb, z3.Lambda([kk], kk + BASE), const=True)
+    this, idx = build_union8_64(nc, tags, [nc.content0, pb], 'node', [nc.lencontent, lb], width=width)
+    elems = [Elem(idx[i] + t * BASE) for i, t in enumerate(tags)]
+    T = WIDTHS[width][0]
+    nc.m.record('ret', {})
+    if op == 'carry':
+        m_ = arg
+        data = nc.m.array('carrydata', ('i', 64), max(1, m_), const=True)
+        a0 = z3.Array('carrydata', z3.BitVecSort(64), z3.BitVecSort(64))
+        cv = [z3.Select(a0, BV(i)) for i in range(m_)]
+        for v in cv:
+            nc.m.assume(v >= 0, v < n)
+        cells = {}
+        nc.index_cells(cells, 0, data, BV(0), BV(m_))
+        cidx = nc.m.record('carryindex', cells, const=True)
+        out = nc.m.call('_ZNK7awkward12UnionArrayOfIa%sE5carryERKNS_7IndexOfIlEEb' % T, [Ptr('ret', 0), this, cidx, z3.BitVecVal(0, 1)])
+        want = [_select(elems, v) for v in cv]
+        desc = 'carry by %d indexes' % m_
+    elif op == 'range':
+        a, b = arg
+        out = nc.m.call('_ZNK7awkward12UnionArrayOfIa%sE20getitem_range_nowrapEll' % T, [Ptr('ret', 0), this, BV(a), BV(b)])
+        want = elems[a:b]
+        desc = 'range [%d:%d]' % (a, b)
+    else:
+        k = arg
+        out = nc.m.call('_ZNK7awkward12UnionArrayOfIa%sE7projectEl' % T, [Ptr('ret', 0), this, BV(k)])
+        want = [elems[i] for i, t in enumerate(tags) if t == k]
+        desc = 'project(%d)' % k
+    obls = [('%s does not raise' % desc, out.raised)]
+    rcell = nc.m.cell('ret', 0)
+    for g, res in (nodeh.decode_cases(nc, out.mem, rcell) if rcell is not None else []):
+        if res is None:
+            obls.append(('a result is returned', z3.And(g, z3.Not(out.raised))))
+            continue
+        obls += [(nm, z3.And(g, z3.Not(out.raised), c)) for nm, c in nodeh.compare_value(res, want)]
+
+    def replay(model, ent):
+        ev = lambda t: model.eval(t, model_completion=True).as_signed_long()
+        iv = [ev(x) for x in idx]
+        la = max([1] + [v + 1 for v, t in zip(iv, tags) if t == 0])
+        lbv = max([1] + [v + 1 for v, t in zip(iv, tags) if t == 1])
+        if max(la, lbv) > 100:
+            return False, 'contents too long to replay', {}
+        prog = 'i64 %s i64 %s regular 1 %d union8_%s %d %s %s 2 ' % (fullnative.ints(range(la)), fullnative.ints(range(500, 500 + lbv)), lbv, width, n, ' '.join(map(str, tags)), ' '.join(map(str, iv)))
+        val = [iv[i] if t == 0 else [500 + iv[i]] for i, t in enumerate(tags)]
+        if op == 'carry':
+            cvv = [ev(v) for v in cv]
+            prog += 'carry %d %s' % (len(cvv), ' '.join(map(str, cvv)))
+            exp = [val[c] for c in cvv]
+        elif op == 'range':
+            prog += 'slice %d %d' % arg
+            exp = val[arg[0]:arg[1]]
+        else:
+            prog += 'unionproject %d' % arg
+            exp = [val[i] for i, t in enumerate(tags) if t == arg]
+        return akrun_check(prog, exp, 'UnionArray8_%s tags=%s index=%s %s' % (width, list(tags), iv, desc))
+    return mdischarge(nc.m, 'UnionArray8_%s tags=%s %s' % (width, ''.join(map(str, tags)), desc), obls, [], replay=replay, prefer=[nc.lencontent <= 6, lb <= 6],
+                      extra=dict(bounds='tags concrete (case split), union index, carry indexes and content lengths symbolic'))
+
+
+def jobs_union_ops(tier):
+    js = []
+    tagsets = [(0, 1, 1, 0), (1, 1)] if tier == 'quick' else [(0, 1, 1, 0), (1, 1), (0,), (1, 0, 1), (0, 0, 1, 1, 0)]
+    for w in ('64', '32', 'U32'):
+        for tg in (tagsets if w == '64' or tier != 'quick' else tagsets[:1]):
+            js.append((h_union_ops, (tg, 'carry', 2, w), 1800))
+            js.append((h_union_ops, (tg, 'range', (1, len(tg)), w), 1800))
+            js.append((h_union_ops, (tg, 'project', 0, w), 1800))
+            js.append((h_union_ops, (tg, 'project', 1, w), 1800))
+    return js
